@@ -138,20 +138,20 @@ TRUSTED = core.COMMON_TRUSTED + [
     "point_in_simplex, volumes, the loss function, choose_point_in_simplex, inside_bounds, random bootstrap points); "
     "theorems hold for all oracle answers; the explicit hypotheses are truthful COMBINATORICS of the triangulation and the "
     "sub-triangulations (ReportExact, TriGeom, SubGeom, SubIdxGeom: exact (deleted, added) reports, vertex indices in range, "
-    "added simplices contain the new vertex, a fresh sub-triangulation loses its root simplex — C03's theorems) and the ghost "
-    "`geomOK` (a (sub)simplex chosen for subdivision is subdivided)",
+    "added simplices contain the new vertex, a fresh sub-triangulation loses its root simplex — C03's theorems) and "
+    "ChooseGeom (chosen point in the domain and accepted by point_in_simplex for its simplex / the owning simplex; inserting it "
+    "removes the sub-simplex; tri.simplices duplicate-free); the former ghost flag geomOK is proved true under these "
+    "(lnd_ghost_true) and still counted in the evidence as an empirical test of them",
     "harness/lnd_drive.py monkeypatch recorder; python round(x, 8) reproduced exactly from the bit pattern "
     "(Drv/LND.lean rnd8); sortedcontainers.SortedKeyList ordering (bisect_right insertion)",
     "IEEE rounding is outside the theorems (ordered fields)",
 ]
 
 PARTIAL = [
-    "lnd_ask_fresh_statement (ask returns distinct points none of which is evaluated or pending) is stated, not proved: "
-    "proved is the corner prefix (lnd_ask_fresh_partial, lnd_bounds_first) and the count (lnd_ask_count); freshness of points "
-    "chosen inside (sub)simplices is a property of the oracle choose_point_in_simplex and fails on the real code by an "
-    "exception (known finding C04.exception:ask:ValueError(Point already in triangulation))",
-    "lnd_queue_complete / lnd_pop_highest / lnd_ask_refines_worst assume the ghost geomOK (held in every model op of the "
-    "correspondence runs outside 1e6-aspect boxes; counted in the evidence); remove_unfinished is covered since fix e79ba45",
+    "lnd_ask_fresh_statement (ask returns distinct points none of which is evaluated or pending) is a stated Prop only; "
+    "lnd_ask_fresh proves the full clause under the state-level hypothesis ChooseFresh, lnd_ask_fresh_of_bound reduces ChooseFresh "
+    "to ChooseLocal + PointsBound; the real code violates PointsBound (known finding C04.exception:ask:ValueError(Point already "
+    "in triangulation), and pending points told before the triangulation exists)",
 ]
 
 
